@@ -88,6 +88,18 @@ def pallet_split(mode="LIFO", piat=(1, 1, 1, 1, 1, 1), spd=(4,), cap=4, spb=True
             "edges": [_e("buffer", 0, 1, cap=cap, mode=mode, delay=delay), _e("buffer", 1, 2, cap=3)]}
 
 
+def fleet_mid(iat1=(2, 2, 2, 2, 2, 2, 2, 2), iat2=(2, 2, 2, 2, 2, 2, 2, 2), wc=2, pd=(2,), fcap=3, fdelay=8, transit=1, pd2=(1,),
+              pout=0, pin2=0, T=160, etype_mid="fleet"):
+    """two sources -> buffers -> machine (several workers) -> fleet -> machine -> buffer -> sink: the fleet is filled,
+    unloaded and refilled within single instants"""
+    return {"Q": Q, "T": T, "family": "2S-B-M-F-M-B-K", "expect": "valid", "drains": True,
+            "nodes": [_n("source", blocking=True, iat=list(iat1)), _n("source", blocking=True, iat=list(iat2)),
+                      _n("machine", wc=wc, pd=list(pd), policy_out=pout), _n("machine", wc=1, pd=list(pd2), policy_in=pin2), _n("sink")],
+            "edges": [_e("buffer", 0, 2, cap=2), _e("buffer", 1, 2, cap=2),
+                      _e(etype_mid, 2, 3, cap=fcap, delay=fdelay, transit=transit) if etype_mid == "fleet" else _e("buffer", 2, 3, cap=fcap, delay=fdelay),
+                      _e("buffer", 3, 4, cap=2)]}
+
+
 def conveyor_line(etype="conveyor", acc=1, cap=3, slot=4, iat=(6, 6, 6), pd=(4,), T=160, sink_direct=False, sb=True):
     if sink_direct:
         return {"Q": Q, "T": T, "family": "S-conv-K", "expect": "valid", "drains": True,
@@ -172,6 +184,10 @@ def families(tier):
     C.append(comb_split(recipe=(1, 2), piat=(40,), iiat=(1, 1, 1, 1)))        # items long before the pallet
     C.append(comb_split(recipe=(1, 3), piat=(2, 2), iiat=(9, 9, 9, 9, 9, 9)))   # starving ingredient
     C.append(comb_split(recipe=(1, 2), cpd=(0,), spd=(0,), iiat=(0, 0, 0, 0), piat=(0, 0)))
+    for pout, pin2 in [(0, 0), ("ROUND_ROBIN", "ROUND_ROBIN"), ("FIRST_AVAILABLE", "FIRST_AVAILABLE"), (0, "FIRST_AVAILABLE")]:
+        C.append(fleet_mid(pout=pout, pin2=pin2))
+        C.append(fleet_mid(pout=pout, pin2=pin2, fcap=2, fdelay=6, transit=0, pd=(0,), pd2=(0,)))
+        C.append(fleet_mid(pout=pout, pin2=pin2, wc=3, iat1=(1,) * 10, iat2=(1,) * 10, pd=(3,), fcap=4, fdelay=12, transit=2, pd2=(2,)))
     for mode, spin, delay in itertools.product(["LIFO", "FIFO"], ["FIRST_AVAILABLE", "ROUND_ROBIN", 0], [0, 2]):
         C.append(pallet_split(mode=mode, spin=spin, delay=delay))
     C.append(pallet_split(mode="LIFO", piat=(0, 0, 0, 3, 0, 0), spd=(2, 5)))
@@ -183,6 +199,24 @@ def families(tier):
         C.append(conveyor_line(etype, acc, sink_direct=True))
         C.append(conveyor_line(etype, acc, iat=(1, 1, 1, 1, 1), pd=(12,)))
         C.append(conveyor_line(etype, acc, sb=False))
+    # the scenarios of the repository's own tests (tests/test_machine.py), shorter horizon: their histories are free,
+    # realistic inputs; their assertions are irrelevant here
+    for iat, pd, wc, c1, c2, d1, d2 in [(4, 4, 1, 4, 1, 0, 0), (1, 4, 1, 4, 1, 0, 0), (8, 12, 1, 4, 1, 0, 0), (4, 4, 5, 4, 1, 0, 0),
+                                        (2, 4, 5, 4, 1, 0, 0), (8, 12, 5, 4, 1, 0, 0), (4, 4, 1, 4, 1, 0, 12), (2, 8, 1, 4, 1, 0, 12),
+                                        (4, 8, 1, 4, 1, 4, 12), (4, 4, 5, 4, 1, 0, 12), (2, 8, 5, 4, 1, 0, 12), (4, 8, 5, 4, 1, 0, 12)]:
+        c = line_sbmbk(sb=False, c1=c1, d1=d1, wc=wc, mb=True, c2=c2, d2=d2, T=400)
+        c["nodes"][0]["iat"] = {"const": iat}
+        c["nodes"][1]["pd"] = {"const": pd}
+        c["family"] = "repo-tests/test_pipeline_stats"
+        c["drains"] = False
+        C.append(c)
+    c = fan_in(pin="ROUND_ROBIN", wc=2, pd=(8,), caps=(2, 2), T=400)
+    for k in (0, 1):
+        c["nodes"][k].update(blocking=False, iat={"const": 2})
+    c["edges"][2].update(delay=24, cap=2)
+    c["family"] = "repo-tests/test_machine_processes_multiple_inputs"
+    c["drains"] = False
+    C.append(c)
     C += invalid_configs()
     for i, c in enumerate(C):
         c["name"] = "fam%03d" % i
@@ -190,7 +224,7 @@ def families(tier):
 
 
 def random_config(rng, i):
-    kind = rng.choice(["sbk", "sbmbk", "sbmbk", "fanin", "fanout", "srcfan", "comb", "psplit"])
+    kind = rng.choice(["sbk", "sbmbk", "sbmbk", "fanin", "fanout", "srcfan", "comb", "psplit", "fleetmid"])
     iat = tuple(rng.choice([0, 1, 2, 3, 5, 8]) for _ in range(rng.randint(2, 8)))
     pd = tuple(rng.choice([0, 1, 2, 4, 7]) for _ in range(rng.randint(1, 3)))
     pol = lambda n: rng.choice(["FIRST_AVAILABLE", "ROUND_ROBIN", "RANDOM", rng.randrange(n),
@@ -227,6 +261,12 @@ def random_config(rng, i):
             iat = tuple(x or 1 for x in iat)
         c = src_fan_out(pout=pol(2), blocking=b, iat=iat, caps=(rng.randint(1, 2), rng.randint(1, 2)),
                         delays=(rng.choice([0, 4, 12]), rng.choice([0, 4, 12])), T=T)
+    elif kind == "fleetmid":
+        r = rng.choice([1, 2, 2, 3])
+        c = fleet_mid(iat1=(r,) * rng.randint(4, 10), iat2=(rng.choice([r, r, 1, 3]),) * rng.randint(4, 10), wc=rng.randint(1, 3),
+                      pd=(rng.choice([0, 1, 2, 4]),), fcap=rng.randint(1, 4), fdelay=rng.choice([3, 8, 12]), transit=rng.choice([0, 1, 2]),
+                      pd2=(rng.choice([0, 1, 3]),), pout=rng.choice([0, "ROUND_ROBIN", "FIRST_AVAILABLE"]),
+                      pin2=rng.choice([0, "ROUND_ROBIN", "FIRST_AVAILABLE"]), T=T)
     elif kind == "psplit":
         c = pallet_split(mode=rng.choice(["LIFO", "FIFO"]), piat=tuple(rng.choice([0, 1, 2, 4]) for _ in range(rng.randint(3, 7))),
                          spd=(rng.choice([1, 3, 6]),), cap=rng.randint(2, 4), spb=rng.random() < 0.7, T=T,
